@@ -1,6 +1,6 @@
 #!/usr/bin/env bash
 # Plain-profile leg (thorough tier): repeats the quick workload of a property in a build WITHOUT overflow checks
-# and debug assertions — what a user's release build does — so that a wrap-around cannot hide a panic (C12) or
+# and debug assertions — what a user's release build does — so that a wrap-around cannot hide a panic (C12), a debug-only check cannot stand in for a real one (C08-C11, C13, C14, C16) or
 # silently change a value (C19).
 set -u
 ID="$1"; TIER="$2"; SEED="$3"
